@@ -110,7 +110,7 @@ func runTraced(own func(sig string) bool) func(w wl.Workload) common.Result {
 				lastProblem = fmt.Sprintf("parsing trace: %v", err)
 				continue
 			}
-			v, st = Check(calls, dir, w.SegSize)
+			v, st = CheckOwn(calls, dir, w.SegSize, own)
 			if st.StoreLogsOK == 0 && st.Syscalls < 10 {
 				raw, _ := os.ReadFile(tf)
 				if len(raw) > 1500 {
@@ -141,7 +141,7 @@ func runTraced(own func(sig string) bool) func(w wl.Workload) common.Result {
 }
 
 func TestC07Trace(t *testing.T) {
-	common.Run(t, "C07", "C07Trace", genWorkload, runTraced(func(sig string) bool { return sig != "set-before-fsync" }))
+	common.Run(t, "C07", "C07Trace", genWorkload, runTraced(func(sig string) bool { return !strings.HasPrefix(sig, "set-before-") }))
 }
 
 func TestC08Trace(t *testing.T) {
@@ -151,7 +151,7 @@ func TestC08Trace(t *testing.T) {
 		w.Ops = append(w.Ops, wl.Op{K: "set", Key: "LastVoteCand", Val: []byte("n1")}, wl.Op{K: "setu64", Key: "CurrentTerm", A: 7})
 		return w
 	}, func(w wl.Workload) common.Result {
-		r := runTraced(func(sig string) bool { return sig == "set-before-fsync" })(w)
+		r := runTraced(func(sig string) bool { return strings.HasPrefix(sig, "set-before-") })(w)
 		r.NonTrivial = false
 		for _, c := range r.Classes {
 			if c == "set-acked" {
@@ -320,7 +320,7 @@ func TestC07Fault(t *testing.T) {
 			res.Note = stderr
 			return
 		}
-		v, st2 := Check(calls, dir, c.W.SegSize)
+		v, st2 := CheckOwn(calls, dir, c.W.SegSize, func(sig string) bool { return !strings.HasPrefix(sig, "set-before-") })
 		res.NonTrivial = st2.StoreLogsErr > 0
 		if st2.StoreLogsErr > 0 && c.W.RetryReopen {
 			res.Classes = append(res.Classes, "storelogs-failed-reopened-retried")
@@ -333,7 +333,7 @@ func TestC07Fault(t *testing.T) {
 		} else {
 			res.Classes = append(res.Classes, "fault-not-inside-storelogs")
 		}
-		if v != nil && v.Sig != "set-before-fsync" {
+		if v != nil {
 			res.Fail = common.Failf("after-fsync-fault/"+v.Sig, "with fsync #%d of the API thread failing once (EIO) and the failed StoreLogs retried: %s", k, v.Msg)
 		}
 		return
